@@ -44,6 +44,7 @@ type vmPay struct {
 	guards       []guardFact
 	problems     []string
 	unguarded    []string // array writes at a counter without a dominating bound check (C06)
+	flags        map[string]Value // constants stored into other fields of the machine on this path (an overflow flag)
 }
 
 func (p *vmPay) Clone() Payload {
@@ -53,6 +54,12 @@ func (p *vmPay) Clone() Payload {
 	q.guards = append([]guardFact(nil), p.guards...)
 	q.problems = append([]string(nil), p.problems...)
 	q.unguarded = append([]string(nil), p.unguarded...)
+	if p.flags != nil {
+		q.flags = make(map[string]Value, len(p.flags))
+		for k, v := range p.flags {
+			q.flags[k] = v
+		}
+	}
 	return &q
 }
 
@@ -462,6 +469,13 @@ func vmHooks(c *Ctx, m *vmModel) Hooks {
 		case isVMField(e, "blockTos"):
 			return linV(p.blk), true
 		}
+		if len(p.flags) > 0 {
+			if sel, ok := e.(*ast.SelectorExpr); ok {
+				if v, ok := p.flags[c.fieldPath(sel)]; ok {
+					return v, true
+				}
+			}
+		}
 		return Value{}, false
 	}
 	h.Index = func(in *Interp, st *State, e *ast.IndexExpr, x, idx Value) (Value, bool) {
@@ -611,6 +625,15 @@ func vmHooks(c *Ctx, m *vmModel) Hooks {
 		}
 		if fp := c.fieldPath(lhs); strings.HasPrefix(fp, "<vm>.") && !strings.HasPrefix(fp, "<vm>.stats") {
 			p.events = append(p.events, vmEvent{Kind: "store", Detail: strings.TrimPrefix(fp, "<vm>."), Pos: lhs.Pos(), Val: v})
+			// a constant stored into a plain field is what a later read of it on this path gives
+			if p.flags == nil {
+				p.flags = map[string]Value{}
+			}
+			if op == token.ASSIGN && v.K == vConst {
+				p.flags[fp] = v
+			} else {
+				delete(p.flags, fp)
+			}
 			return true
 		}
 		return false
